@@ -316,7 +316,7 @@ impl FunctionDefinitionContext {
 
     /// Returns a mutable reference to the underlying Any object
     pub fn as_any_mut(&mut self) -> &mut (dyn Any + Send + Sync) {
-        &mut self.inner
+        &mut *self.inner
     }
 
     /// Converts current `FunctionDefinitionContext` to `Box<dyn Any>`
